@@ -7,7 +7,7 @@ Sites that are NOT listed here and not discharged automatically are violations; 
 the pinned tree are listed in known_findings.jsonl instead (never here)."""
 
 TABLE = {
-    'backends::rust::build_type::{closure}|index(upvar0,arg2.0)':
+    'backends::rust::build_type::{closure}|index(upvar0,arg:&(syn::Type, std::vec::Vec<proc_macro2::.0)':
         ('DC-INVARIANT', 'the map indexed here was built two statements earlier by folding over the same vector whose '
                          'elements supply the key, so every key is present', None, 'index(std::collections::HashMap<syn::Type, std,.0)'),
     'backends::rust::fully_qualified_type_ref_impl|rt::panic_fmt(Arguments::new(const,array))':
@@ -27,24 +27,24 @@ TABLE = {
                          'turns into Err (obligation G9 of C05 checks that guard)', 'G9', 'rt::panic_fmt(fmt(b"~function `~~` had no body assigned: ~~"))'),
     'semantic::semantic_state::SemanticState::add_file::{closure}|Overflow:Add(Span::start(Error::span(…)).column,1)':
         ('DC-COUNTER', 'column is bounded by the length of the input text', None, 'Overflow:Add(.column,1)'),
-    'semantic::semantic_state::SemanticState::build|Option::unwrap(TypeRegistry::get_mut(arg1.type_registry,Some!(next(…))))':
+    'semantic::semantic_state::SemanticState::build|Option::unwrap(TypeRegistry::get_mut(arg:semantic::semantic_state::SemanticState.type_registry,Some!(next(…))))':
         ('DC-INVARIANT', 'the same key was looked up successfully with get() earlier in the same iteration and the registry '
                          'never removes entries', 'registry-never-removes', 'Option::unwrap(TypeRegistry::get_mut)'),
     "semantic::semantic_state::SemanticState::new|Result::expect(SemanticState::add_item(var:semantic::semantic_state::SemanticState,types::ItemDefinition{..}),'failed to add prede)":
         ('DC-INVARIANT', 'the root module is inserted immediately before and every predefined name is a one-segment literal, '
                          'so parent() is the root path and get_mut(root) succeeds', None, "Result::expect(SemanticState::add_item,'failed to add predefine)"),
-    'semantic::type_definition::build|Option::unwrap(SemanticState::get_module_for_path(arg1,arg2))':
+    'semantic::type_definition::build|Option::unwrap(SemanticState::get_module_for_path(arg:&mut semantic::semantic_state::SemanticS,arg:&grammar::ItemPath))':
         ('DC-INVARIANT', 'the same lookup succeeded at function entry (with_context(..)?) and modules are never removed',
          'modules-never-removed', 'Option::unwrap(SemanticState::get_module_for_path)'),
-    'semantic::type_definition::build|Option::unwrap(Type::alignment(Some!(…).type_ref,arg1.type_registry))':
+    'semantic::type_definition::build|Option::unwrap(Type::alignment(Some!(…).type_ref,arg:&mut semantic::semantic_state::SemanticS.type_registry))':
         ('DC-INVARIANT', 'every region returned by resolve_regions had Some(size) there; Type::size and Type::alignment are '
                          'Some for exactly the same types (both follow resolved())', None, 'Option::unwrap(Type::alignment)'),
-    'semantic::type_definition::build|Option::unwrap(Region::size(Some!(next(…)),arg1.type_registry))':
+    'semantic::type_definition::build|Option::unwrap(Region::size(Some!(next(…)),arg:&mut semantic::semantic_state::SemanticS.type_registry))':
         ('DC-INVARIANT', 'every region returned by resolve_regions had Some(size) there (its last loop returns Ok(None) otherwise)', None, 'Option::unwrap(Region::size)'),
     'semantic::type_definition::build|RemainderByZero(Option::unwrap(Type::alignment(….type_ref,….type_registry)))':
         ('DC-INVARIANT', 'a field type\'s alignment is never 0: it is the pointer size, a built-in\'s max(size, 1), an extern type\'s validated align, '
                          'or the validated/packed alignment of a resolved type', 'alignments-nonzero', 'RemainderByZero(Option::unwrap)'),
-    'util::lcm::{closure}|DivisionByZero(util::gcd(arg2,arg3))':
+    'util::lcm::{closure}|DivisionByZero(util::gcd(arg:usize,arg:usize))':
         ('DC-INVARIANT', 'gcd(acc, x) is 0 only for acc = x = 0; acc starts at 1 and every x is a non-zero alignment', 'alignments-nonzero', 'DivisionByZero(util::gcd)'),
     'semantic::type_definition::resolve_regions|Option::unwrap(slice::last(deref(….regions)))':
         ('DC-INVARIANT', 'reached only when checked_sub(offset, last_address) is None, i.e. last_address > 0, so a region of '
@@ -52,10 +52,10 @@ TABLE = {
     'semantic::type_definition::vftable::build_type|Iterator::sum(Iterator::map(slice::iter(deref(…)),closure))':
         ('DC-COUNTER', 'sum of pointer_size over slots that were each allocated as a Function value; bounded by memory', None,
          ('Iterator::sum(Iterator::map)', 'Overflow:Add(usize,Option::unwrap)')),   # or the same total kept as a running `size += ..`
-    'semantic::type_definition::vftable::build_type::{closure}|Option::unwrap(Region::size(arg2,upvar0))':
+    'semantic::type_definition::vftable::build_type::{closure}|Option::unwrap(Region::size(arg:&semantic::type_definition::Region,upvar0))':
         ('DC-INVARIANT', 'vftable regions are built by function_to_region only, whose type is Type::Function; its size is '
                          'Some(pointer_size) unconditionally', 'function_to_region-makes-Function', 'Option::unwrap(Region::size)'),
-    "semantic::type_registry::TypeRegistry::padding_type|Option::unwrap(TypeRegistry::resolve_string(arg1,const,'u8'))":
+    "semantic::type_registry::TypeRegistry::padding_type|Option::unwrap(TypeRegistry::resolve_string(arg:&semantic::type_registry::TypeRegistry,const,'u8'))":
         ('DC-INVARIANT', 'TypeRegistry::new is pub(crate) and called only by SemanticState::new, which registers `u8` before '
                          'returning; entries are never removed', 'registry-new-only-in-semantic-state', 'Option::unwrap(TypeRegistry::resolve_string)'),
 }
